@@ -3,11 +3,30 @@ From Yv Require Export Common.Base C11.Model C11.Spec C11.ScriptModel C11.Script
 
 (* One case: the conditions in play with their initial dispositions (sorted
    by number), and the history of (operation, what the implementation did). *)
+(* One command of a script of stream C, with what was observed right after it
+   (TrapSet::get_state, disposition and mask of every condition in play):
+   - `trap ACTION COND...` through yash-builtin/src/trap.rs in a non-interactive
+     shell; [valid] = every operand names a condition (otherwise the built-in
+     fails before touching anything); [status_ok] = it returned 0;
+   - a signal sent by the shell to itself, then the list of actions run at the
+     following command boundary (each action is `hit ID`). *)
+Inductive bstep :=
+| BTrapCmd (conds : list N) (a : action) (valid : bool) (status_ok : bool)
+           (obs : list (N * sobs))
+| BDeliver (c : N) (hits : list N) (obs : list (N * sobs)).
+
 Inductive case :=
 | CTrap (univ : list (N * disp)) (hist : list step_obs)
 (* a script of instrumented commands with its table of trap actions, the trace
    the built-ins recorded, and whether the main shell was killed *)
 | CScript (tbl : table) (main : list cmd) (trace : list event) (dead : bool)
+(* a hand-written script outside the command language of ScriptModel.v (e.g. a
+   subshell inside a trap action): only the monitor judges its trace; [tbl]
+   lists the recorded events of each trap action *)
+| CMonitor (tbl : table) (trace : list event) (dead : bool)
+(* `trap` built-in commands naming several conditions, run by the real shell
+   entered with some signals ignored; see [bstep] *)
+| CBuiltin (univ : list (N * disp)) (steps : list bstep) (complete : bool)
 (* the implementation panicked (or the shell hung) on the input described in
    the case's JSON *)
 | CPanic (stream : N).
@@ -89,10 +108,141 @@ Definition run_script_case (tbl : table) (main : list cmd) (trace : list event) 
         end
     end.
 
+(* ---- stream C: the trap built-in ------------------------------------------------------ *)
+Fixpoint slookup (l : list (N * spec)) (c : N) : option spec :=
+  match l with
+  | [] => None
+  | (c', x) :: l => if N.eqb c' c then Some x else slookup l c
+  end.
+
+(* the reference: each named condition is processed on its own; KILL and STOP
+   are refused, a signal ignored on entry is silently left alone *)
+Definition spec_result (c : N) (sp : spec) : res :=
+  if N.eqb c SIGKILL then RErrKill
+  else if N.eqb c SIGSTOP then RErrStop
+  else if u_locked sp && is_signal c then RErrIgnored
+  else ROk.
+
+Definition spec_apply (sps : list (N * spec)) (o : op) (c : N) : list (N * spec) :=
+  map (fun p =>
+         let r := match slookup sps c with Some sp => spec_result c sp | None => ROk end in
+         (fst p, spec_step true (fst p) (snd p) o r)) sps.
+
+Definition final_clauses (c : N) (sp : spec) (n : sobs) : option N :=
+  first_failing
+    [ (0, negb (is_signal c) || disp_eqb (ob_disp n) (expected sp));
+      (1, negb (is_signal c) || Bool.eqb (ob_blocked n) (disp_eqb (ob_disp n) Catch));
+      (7, cl_shown sp n) ]%N.
+
+Fixpoint final_check (sps : list (N * spec)) (new : list (N * sobs)) : option N :=
+  match sps, new with
+  | (c, sp) :: sps, (_, n) :: new =>
+      match final_clauses c sp n with Some k => Some k | None => final_check sps new end
+  | _, _ => None
+  end.
+
+(* the model: the TrapSet operations the built-in performs, in order *)
+Definition trap_ops (conds : list N) (a : action) (valid : bool) : list op :=
+  if valid then map (fun c => OSetAction c a 0 false) conds else [].
+
+Fixpoint gapply_results (g : gstate) (ops : list op) : gstate * list res :=
+  match ops with
+  | [] => (g, [])
+  | o :: ops =>
+      let r := gresult g (GOp o) in
+      let '(g', rs) := gapply_results (gapply o g) ops in
+      (g', r :: rs)
+  end.
+
+Definition hard_error (r : res) : bool :=
+  match r with RErrKill | RErrStop => true | _ => false end.
+
+(* the action (if any) run at the boundary after a delivery *)
+Definition hit_of (a : action) : list N := match a with ACommand id => [id] | _ => [] end.
+
+Fixpoint run_bsteps (keys : list N) (g : gstate) (sps : list (N * spec))
+    (prev : list (N * sobs)) (steps : list bstep) (mismatch : bool) : verdict :=
+  match steps with
+  | [] => if mismatch then 1%N else 0%N
+  | BTrapCmd conds a valid ok new :: steps =>
+      let ops := trap_ops conds a valid in
+      if negb (list_eqb N.eqb (map fst new) keys && forallb (fun c => mem c keys) conds) then 99%N
+      else
+        (* oracle *)
+        let sps' := fold_left (fun s o => match o with
+                                          | OSetAction c _ _ _ => spec_apply s o c
+                                          | _ => s end) ops sps in
+        let ok_spec := valid && negb (existsb (fun c => N.eqb c SIGKILL || N.eqb c SIGSTOP) conds) in
+        match final_check sps' new with
+        | Some k => (2 + k)%N
+        | None =>
+            if negb (Bool.eqb ok ok_spec) then 13%N
+            else
+              let '(g', rs) := gapply_results g ops in
+              let agree :=
+                list_eqb (pair_eqb N.eqb sobs_eqb)
+                         (map (fun p => (fst p, observe (snd p))) g') new
+                && Bool.eqb ok (valid && negb (existsb hard_error rs)) in
+              run_bsteps keys g' sps' new steps (mismatch || negb agree)
+        end
+  | BDeliver c hits new :: steps =>
+      let deliverable :=
+        negb (N.eqb c SIGKILL) && negb (N.eqb c SIGSTOP) && is_signal c &&
+        match olookup prev c with
+        | Some p => negb (disp_eqb (ob_disp p) Default)
+        | None => false
+        end in
+      if negb (list_eqb N.eqb (map fst new) keys && deliverable) then 99%N
+      else
+        let expected_hits :=
+          match slookup sps c with
+          | Some sp => if disp_eqb (expected sp) Catch then hit_of (u_act sp) else []
+          | None => []
+          end in
+        let sps' := map (fun p => (fst p, spec_step true (fst p)
+                                            (spec_step true (fst p) (snd p) (ODeliver c) ROk)
+                                            (OTakeSig c) ROk)) sps in
+        if negb (list_eqb N.eqb hits expected_hits) then 8%N
+        else
+          match final_check sps' new with
+          | Some k => (2 + k)%N
+          | None =>
+              let g1 := gapply (ODeliver c) g in
+              let '(g2, mhits) :=
+                match first_pending g1 with
+                | Some c' =>
+                    (gapply (OTakeSig c') g1,
+                     match glookup g1 c' with
+                     | Some st => match s_ent st with
+                                  | Some e => hit_of (t_action (e_cur e))
+                                  | None => []
+                                  end
+                     | None => []
+                     end)
+                | None => (g1, [])
+                end in
+              let agree :=
+                list_eqb (pair_eqb N.eqb sobs_eqb)
+                         (map (fun p => (fst p, observe (snd p))) g2) new
+                && list_eqb N.eqb mhits hits in
+              run_bsteps keys g2 sps' new steps (mismatch || negb agree)
+          end
+  end.
+
+Definition run_builtin_case (univ : list (N * disp)) (steps : list bstep) (complete : bool)
+    : verdict :=
+  if negb (univ_ok univ) then 99%N
+  else if negb complete then 14%N
+  else run_bsteps (map fst univ) (ginit univ) (spec_inits univ) (obs_inits univ) steps false.
+
 Definition run_case (c : case) : verdict :=
   match c with
   | CTrap univ hist => run_trap_case univ hist
   | CScript tbl main trace dead => run_script_case tbl main trace dead
+  | CMonitor tbl trace dead =>
+      if negb (forallb body_ok tbl) then 99%N
+      else match monitor true tbl trace dead with Some k => (20 + k)%N | None => 0%N end
+  | CBuiltin univ steps complete => run_builtin_case univ steps complete
   | CPanic _ => 12%N
   end.
 
